@@ -359,7 +359,16 @@ func c18Case(c *core.C) {
 			ind := gen.Pick(r, []int{0, 1, 5, 7})
 			var buf bytes.Buffer
 			trace = append(trace, fmt.Sprintf("%s.WriteStreamWithOptions(%s,indent %d)", m.name, f, ind))
-			err := m.w.WriteStreamWithOptions(c18Doc(), nopWC{&buf}, &writer.Options{Format: f, RenderOptions: &native.RenderOptions{Indent: ind}, SerializeOptions: &native.SerializeOptions{}})
+			callOpts := &writer.Options{Format: f, RenderOptions: &native.RenderOptions{Indent: ind}, SerializeOptions: &native.SerializeOptions{}}
+			if r.Intn(2) == 0 {
+				// per-call driver options: for this call only
+				callOpts.SetFormatOptions(gen.Pick(r, c18Keys), fmt.Sprintf("per-call-%d", s))
+				c.Cover("per-call-write-with-driver-options")
+			}
+			if r.Intn(3) == 0 {
+				callOpts.StoreOptions = &storage.StoreOptions{NoClobber: true, BackendOptions: "per-call"}
+			}
+			err := m.w.WriteStreamWithOptions(c18Doc(), nopWC{&buf}, callOpts)
 			c.Evals(1)
 			c.Cover("per-call-write")
 			if err != nil {
@@ -374,7 +383,13 @@ func c18Case(c *core.C) {
 		default:
 			m := rs[r.Intn(len(rs))]
 			trace = append(trace, fmt.Sprintf("%s.ParseStreamWithOptions(format SPDX)", m.name))
-			doc, err := m.r.ParseStreamWithOptions(bytes.NewReader(spdxSample), &reader.Options{Format: formats.SPDX23JSON, UnserializeOptions: &native.UnserializeOptions{}})
+			callOpts := &reader.Options{Format: formats.SPDX23JSON, UnserializeOptions: &native.UnserializeOptions{}}
+			if r.Intn(2) == 0 {
+				callOpts.SetFormatOptions(gen.Pick(r, c18Keys), fmt.Sprintf("per-call-%d", s))
+				callOpts.RetrieveOptions = &storage.RetrieveOptions{BackendOptions: "per-call"}
+				c.Cover("per-call-parse-with-driver-options")
+			}
+			doc, err := m.r.ParseStreamWithOptions(bytes.NewReader(spdxSample), callOpts)
 			c.Evals(1)
 			c.Cover("per-call-parse")
 			if err != nil || doc == nil {
